@@ -102,9 +102,17 @@ def parse_type(s: str):
     return r
 
 
+def is_node(t) -> bool:
+    return isinstance(t, str) and t.startswith("Node@")
+
+
+def node_tree(t) -> str:
+    return t[len("Node@"):]
+
+
 def show_type(t) -> str:
     if isinstance(t, str):
-        return t
+        return "Int" if is_node(t) else t          # a node handle is the row index it dereferences on every access
     if t[0] == "List":
         return f"(List {show_type(t[1])})"
     if t[0] == "Option":
@@ -167,13 +175,17 @@ class Fn:
     tparams: list = field(default_factory=list)    # type parameters
     callbacks: dict = field(default_factory=dict)  # python name -> (lean binder text, arg count, result type)  state-passing over `v.cbs`
     skip_stmts: list = field(default_factory=list)  # source text of statements that are glue (replaced by `subst`-initialised params)
+    tree_cols: dict = field(default_factory=dict)  # source text of a tree-valued expression (`tree`, `self.attach`) -> {"id": var, "pid": var, "type": var}:
+                                                    # the tree IS those column variables; a `Node` of it is its row index (type `Node@<text>`)
+    stmt_subst: dict = field(default_factory=dict)  # source text of a statement -> python source of its meaning on the column variables
     doc: str = ""
     module: str = "AlgoDsu"                         # generated file Gen/<module>.lean (one per group, so that a change to one
                                                     # source file cannot break the generated module of an unrelated property)
 
 
 MODULE_STRUCTS = {"AlgoDsu": ["DisjointSetUnion"], "AlgoPopulation": ["ChainTrees", "LazyLoadingTrees", "NestTrees"]}
-MODULE_IMPORTS = {"AlgoCheckers": ["AlgoDsu"], "AlgoBranches": ["AlgoTraverse"], "AlgoSubtree": ["AlgoTraverse"]}
+MODULE_IMPORTS = {"AlgoCheckers": ["AlgoDsu"], "AlgoBranches": ["AlgoTraverse"], "AlgoSubtree": ["AlgoTraverse"],
+                  "AlgoRedirect": ["AlgoNode", "AlgoSort"]}
 
 STRUCTS = {
     "DisjointSetUnion": {"element_parent": "List Int", "rank": "List Int"},
@@ -255,6 +267,24 @@ class FnTr:
         return [], f"v.{lname(e.id)}", ty
 
     def e_Attribute(self, e, want):
+        # --- a column of a node handle: `n.pid` = `tree.pid()[n.idx]` (Node.__getitem__ indexes the owner's column on every access)
+        if not (isinstance(e.value, ast.Name) and isinstance(self.vars.get(e.value.id), str) and self.vars.get(e.value.id) in STRUCTS):
+            try:
+                s0, c, t = self.tr(e.value)
+            except Untranslatable:
+                s0, c, t = None, None, None
+            if t is not None and isinstance(t, tuple) and t[0] == "Option" and is_node(t[1]):
+                # a variable that held `None` earlier and is known to hold a node here: reading an attribute of None raises
+                n0 = self.bindname()
+                s0, c, t = s0 + [f"Py.bind ({c}) fun {n0} =>"], n0, t[1]
+            if t is not None and is_node(t):
+                cols = self.spec.tree_cols.get(node_tree(t), {})
+                if e.attr == "idx":
+                    return s0, c, "Int"
+                if e.attr in cols:
+                    n = self.bindname()
+                    return s0 + [f"Py.bind (Py.idx v.{lname(cols[e.attr])} {c}) fun {n} =>"], n, "Int"
+                raise Untranslatable(f"{self.spec.lean}: node attribute `{ast.unparse(e)}`")
         if isinstance(e.value, ast.Name) and e.value.id in self.vars:
             sty = self.vars[e.value.id]
             if isinstance(sty, str) and sty in STRUCTS and e.attr in STRUCTS[sty]:
@@ -402,6 +432,16 @@ class FnTr:
             raise Untranslatable(f"{self.spec.lean}: comparison of {ta} with {tb} in `{ast.unparse(l)} ? {ast.unparse(r)}`")
         return s1 + s2, f"(decide ({a} {sym} {b}))", "Bool"
 
+    def e_NamedExpr(self, e, want):
+        """`(x := e)`: assigns and yields the value"""
+        if not isinstance(e.target, ast.Name):
+            raise Untranslatable("walrus target")
+        st, c, t = self.tr(e.value, self.vars.get(e.target.id))
+        if e.target.id not in self.vars and e.target.id not in self.extra_vars:
+            self.vars[e.target.id] = t
+        self.check_type(e.target.id, t, e)
+        return st + [f"let v := {{ v with {lname(e.target.id)} := {c} }};"], f"v.{lname(e.target.id)}", t
+
     def e_IfExp(self, e, want):
         # `cb(...) if cb is not None else None`: callbacks are always present (an absent callback is the trivial one)
         t = e.test
@@ -411,6 +451,9 @@ class FnTr:
         s0, c, tc = self.tr(e.test)
         s1, a, ta = self.tr(e.body, want)
         s2, b, tb = self.tr(e.orelse, want)
+        if ta != tb and want is not None:
+            # `x if c else None`: both branches are values of the optional slot
+            a, b, ta = self.coerce(a, ta, want), self.coerce(b, tb, want), want
         if s1 or s2:
             # a fallible branch must only be evaluated when taken
             n = self.bindname()
@@ -452,6 +495,14 @@ class FnTr:
             if 0 <= k < n:
                 return s1, proj(a, k, n), parts[k]
         if isinstance(e.slice, ast.Slice):
+            sl = e.slice
+            if isinstance(ta, tuple) and ta[0] == "List" and sl.step is None:
+                lo = ast.literal_eval(sl.lower) if sl.lower is not None and isinstance(sl.lower, (ast.Constant, ast.UnaryOp)) else None
+                hi = ast.literal_eval(sl.upper) if sl.upper is not None and isinstance(sl.upper, (ast.Constant, ast.UnaryOp)) else None
+                if sl.upper is None and isinstance(lo, int) and lo >= 0:
+                    return s1, f"(({a}).drop {lo})", ta                    # x[k:]
+                if sl.lower is None and isinstance(hi, int) and hi < 0:
+                    return s1, f"(Py.dropEnd {a} {-hi})", ta                # x[:-k]
             raise Untranslatable(f"slice `{ast.unparse(e)}`")
         s2, i, ti = self.tr(e.slice)
         if isinstance(ta, tuple) and ta[0] == "List":
@@ -603,6 +654,62 @@ class FnTr:
             n = self.bindname()
             steps.append(f"let {n} := {e.func.id} v.cbs {' '.join(codes)}; let v := {{ v with cbs := {n}.1 }};")
             return steps, f"{n}.2", parse_type(rty)
+        # --- trees as column variables, node handles as row indices
+        if isinstance(e.func, ast.Attribute) and ast.unparse(e.func.value) in self.spec.tree_cols:
+            T = ast.unparse(e.func.value)
+            cols = self.spec.tree_cols[T]
+            meth = e.func.attr
+            if meth == "node" and len(args) == 1:                       # Tree.node(idx) = Tree.Node(self, idx)
+                s0, c, t = self.tr(args[0])
+                if t == "Int" or is_node(t):
+                    return s0, c, f"Node@{T}"
+            if meth in cols and not args:                                # tree.id() / tree.pid() / tree.type(): the column itself
+                return [], f"v.{lname(cols[meth])}", ("List", "Int")
+            if meth == "number_of_nodes" and not args and "id" in cols:
+                return [], f"(Py.len v.{lname(cols['id'])})", "Int"
+        if f in ("Tree.Node", "self.Node") and len(args) == 2 and ast.unparse(args[0]) in self.spec.tree_cols:
+            s0, c, t = self.tr(args[1])
+            if t == "Int" or is_node(t):
+                return s0, c, f"Node@{ast.unparse(args[0])}"
+        if isinstance(e.func, ast.Attribute) and e.func.attr in NODE_METHODS:
+            try:
+                s0, rc, rt = self.tr(e.func.value)
+            except Untranslatable:
+                rt = None
+            if rt is not None and is_node(rt):
+                callee = by_lean_global[NODE_METHODS[e.func.attr]]
+                T = node_tree(rt)
+                mine = self.spec.tree_cols[T]
+                (ctree, ccols), = callee.tree_cols.items()
+                inv = {var: key for key, var in ccols.items()}
+                codes = []
+                for pname in callee.params:
+                    if pname == "self":
+                        codes.append(rc)
+                    elif pname in inv and inv[pname] in mine:
+                        codes.append(f"v.{lname(mine[inv[pname]])}")
+                    else:
+                        raise Untranslatable(f"{self.spec.lean}: `{ast.unparse(e)}` needs column `{pname}`")
+                if args or kw:
+                    raise Untranslatable(f"{self.spec.lean}: arguments in `{ast.unparse(e)}`")
+                n = self.bindname()
+                rty = parse_type(callee.ret)
+                rty = retarget_nodes(rty, T)
+                return s0 + [f"Py.bind ({callee.lean} {' '.join(codes)}) fun {n} =>"], n, rty
+        # --- a translated function that takes a whole tree and updates it in place: `_sort_tree(tree)`
+        if f in TREE_CALLEES and len(args) == 1 and ast.unparse(args[0]) in self.spec.tree_cols:
+            callee = by_lean_global[TREE_CALLEES[f]]
+            mine = self.spec.tree_cols[ast.unparse(args[0])]
+            (ctree, ccols), = callee.tree_cols.items()
+            inv = {var: key for key, var in ccols.items()}
+            codes = [f"v.{lname(mine[inv[pn]])}" for pn in callee.params]
+            if callee.fuel and not self.spec.fuel:
+                raise Untranslatable(f"{self.spec.lean} calls {callee.lean} which needs fuel")
+            n = self.bindname()
+            k = len(callee.out) + 1
+            back = ", ".join(f"{lname(mine[inv[o]])} := {proj(n, j, k)}" for j, o in enumerate(callee.out))
+            return ([f"Py.bind ({callee.lean} {'fuel ' if callee.fuel else ''}{' '.join(codes)}) fun {n} => let v := {{ v with {back} }};"],
+                    proj(n, k - 1, k), parse_type(callee.ret))
         # --- a call that is, at the level of the translated data, a call of another translated function
         if f in self.spec.call_alias:
             tgt, idxs = self.spec.call_alias[f]
@@ -804,6 +911,9 @@ class FnTr:
         txt = ast.unparse(s)
         if txt in self.spec.skip_stmts:
             return None
+        if txt in self.spec.stmt_subst:
+            new = ast.parse(textwrap.dedent(self.spec.stmt_subst[txt])).body
+            return self.block(new)
         m = getattr(self, "s_" + type(s).__name__, None)
         if m is None:
             raise Untranslatable(f"{self.spec.lean}: statement `{txt.splitlines()[0]}`")
@@ -829,7 +939,11 @@ class FnTr:
                     tgt = ast.Assign([recv], ast.BinOp(recv, ast.Add(), ast.List([e.args[0]], ast.Load())))
                     return self.s_Assign(tgt)
                 s0, a, ta = self.tr(recv)
-                s1, x, _ = self.tr(e.args[0], ta[1] if isinstance(ta, tuple) else None)
+                s1, x, tx = self.tr(e.args[0], ta[1] if isinstance(ta, tuple) else None)
+                if isinstance(ta, tuple) and ta[0] == "List" and tx == ("Option", ta[1]) and ta[1] != tx:
+                    # the source appends a variable it has just tested `is not None`: a None here is unreachable, and is an error in the typed model
+                    n0 = self.bindname()
+                    s1, x = s1 + [f"Py.bind ({x}) fun {n0} =>"], n0
                 lv = self.lvalue(recv)
                 return self.chain(s0 + s1, ".next " + lv(f"({a} ++ [{x}])"))
             if meth == "extend" and len(e.args) == 1:
@@ -890,7 +1004,40 @@ class FnTr:
                 self.check_type(x.id, pt, s)
                 ups.append(f"{lname(x.id)} := {proj('p', k, n)}")
             return self.chain(st, f"let p := {c}; .next {{ v with {', '.join(ups)} }}")
+        if isinstance(tgt, ast.Tuple):
+            # `a.x, b.y = e1, e2`: the right-hand side is evaluated completely, then the targets are assigned left to right
+            st, c, t = self.tr(s.value)
+            parts = prod_parts(t, len(tgt.elts))
+            tmps = [self.fresh(pt, "u") for pt in parts]
+            n = len(tgt.elts)
+            first = self.chain(st, f"let p := {c}; .next {{ v with " + ", ".join(f"{tm} := {proj('p', k, n)}" for k, tm in enumerate(tmps)) + " }")
+            codes = [first]
+            for x, tm in zip(tgt.elts, tmps):
+                asg = ast.Assign([x], ast.Name(tm, ast.Load()))
+                ast.copy_location(asg, s); ast.fix_missing_locations(asg)
+                codes.append(self.s_Assign(asg))
+            out = codes[-1]
+            for cc in reversed(codes[:-1]):
+                out = f"(Py.seq {cc}\n{out})"
+            return out
         if isinstance(tgt, ast.Attribute):
+            # `n.pid = e` on a node handle: a write into the owner's column at the node's row (Node.__setitem__)
+            try:
+                s0, rc, rt = self.tr(tgt.value)
+            except Untranslatable:
+                rt = None
+            if rt is not None and is_node(rt):
+                cols = self.spec.tree_cols.get(node_tree(rt), {})
+                if tgt.attr not in cols:
+                    raise Untranslatable(f"{self.spec.lean}: assignment to node attribute `{ast.unparse(tgt)}`")
+                col = lname(cols[tgt.attr])
+                # CPython evaluates the right-hand side first, then the target's sub-expressions
+                s2, x, tx = self.tr(s.value)
+                if tx != "Int" and not is_node(tx):
+                    raise Untranslatable(f"{self.spec.lean}: `{ast.unparse(s)}` assigns {tx} to a column")
+                s0, rc, rt = self.tr(tgt.value)
+                n = self.bindname()
+                return self.chain(s2 + s0 + [f"Py.bind (Py.setIdx v.{col} {rc} {x}) fun {n} =>"], f".next {{ v with {col} := {n} }}")
             st, c, t = self.tr(s.value)
             lv = self.lvalue(tgt)
             return self.chain(st, ".next " + lv(c))
@@ -973,10 +1120,12 @@ class FnTr:
         self.bind_target_types(s.target, et)
         body = self.block(s.body)
         if isinstance(s.target, ast.Name):
-            upd = f"{{ v with {lname(s.target.id)} := x }}"
+            upd = f"{{ v with {lname(s.target.id)} := {self.coerce('x', et, self.var_type(s.target.id))} }}"
         else:
             n = len(s.target.elts)
-            upd = "{ v with " + ", ".join(f"{lname(x.id)} := {proj('x', k, n)}" for k, x in enumerate(s.target.elts)) + " }"
+            pts = prod_parts(et, n)
+            upd = "{ v with " + ", ".join(f"{lname(x.id)} := {self.coerce(proj('x', k, n), pts[k], self.var_type(x.id))}"
+                                          for k, x in enumerate(s.target.elts)) + " }"
         if self.hoist:
             self.nloop += 1
             nm = f"{self.spec.lean}.for{self.nloop}"
@@ -1035,6 +1184,21 @@ class FnTr:
             raise Untranslatable("while-else")
         if not self.spec.fuel:
             raise Untranslatable(f"{self.spec.lean}: while loop in a function without fuel")
+        if any(isinstance(n, ast.NamedExpr) for n in ast.walk(s.test)):
+            # `while (x := e) is not None: body`  ->  `while True: x = e; if not (x is not None): break; body`
+            # (sound when the walrus is the first thing the test evaluates: a comparison whose left operand it is)
+            t0 = s.test
+            if not (isinstance(t0, ast.Compare) and isinstance(t0.left, ast.NamedExpr) and isinstance(t0.left.target, ast.Name)
+                    and not any(isinstance(n, ast.NamedExpr) for c0 in t0.comparators for n in ast.walk(c0))):
+                raise Untranslatable(f"{self.spec.lean}: walrus in `while {ast.unparse(t0)}`")
+            asg = ast.Assign([ast.Name(t0.left.target.id, ast.Store())], t0.left.value)
+            test2 = ast.Compare(ast.Name(t0.left.target.id, ast.Load()), t0.ops, t0.comparators)
+            brk = ast.If(ast.UnaryOp(ast.Not(), test2), [ast.Break()], [])
+            new = ast.While(ast.Constant(True), [asg, brk] + list(s.body), [])
+            for nd in ast.walk(new):
+                if not hasattr(nd, "lineno"):
+                    nd.lineno = nd.col_offset = nd.end_lineno = nd.end_col_offset = 0
+            return self.s_While(new)
         st, c, t = self.tr(s.test)
         cond = self.opt_block(st, self.as_bool(c, t))
         body = self.block(s.body)
@@ -1151,15 +1315,24 @@ class FnTr:
         return "\n".join(lines) + "\n"
 
 STRUCT_CTORS = {}
+NODE_METHODS = {}       # method name of `Tree.Node` -> lean name of its translation (filled by `spec(node_method=...)`)
+TREE_CALLEES = {}       # python callee text of a function taking (and updating) a whole tree -> lean name
+
+
+def retarget_nodes(t, T):
+    """the node handles a `Tree.Node` method returns belong to the caller's tree"""
+    if isinstance(t, str):
+        return f"Node@{T}" if is_node(t) else t
+    return (t[0],) + tuple(retarget_nodes(x, T) for x in t[1:])
 CLASS_INITS = {"DisjointSetUnion": "dsu_init"}      # python class name -> lean name of its translated __init__
 by_lean_global = {}
 
 
 def find_def(tree: ast.Module, cls, func):
     scope = tree.body
-    if cls:
-        for n in tree.body:
-            if isinstance(n, ast.ClassDef) and n.name == cls:
+    for part in (cls.split(".") if cls else []):
+        for n in scope:
+            if isinstance(n, ast.ClassDef) and n.name == part:
                 scope = n.body
                 break
         else:
@@ -1194,11 +1367,15 @@ SPECS: list[Fn] = []
 CALLEES: dict[str, str] = {}     # python call text -> lean name
 
 
-def spec(callee=None, **kw):
+def spec(callee=None, node_method=None, tree_callee=None, **kw):
     f = Fn(**kw)
     SPECS.append(f)
     for c in callee or []:
         CALLEES[c] = f.lean
+    if node_method:
+        NODE_METHODS[node_method] = f.lean
+    if tree_callee:
+        TREE_CALLEES[tree_callee] = f.lean
     return f
 
 
@@ -1228,7 +1405,7 @@ spec(lean="traverse_dfs", module="AlgoTraverse", file="swcgeom/core/swc_utils/ba
      callbacks={"enter": ("(enter : σ → Int → Option T → σ × T)", 2, "T"), "leave": ("(leave : σ → Int → List K → σ × K)", 2, "K")})
 
 
-spec(lean="sort_nodes_impl", module="AlgoSort", file="swcgeom/core/swc_utils/normalizer.py", func="sort_nodes_impl",
+spec(lean="sort_nodes_impl", module="AlgoSort", file="swcgeom/core/swc_utils/normalizer.py", func="sort_nodes_impl", callee=["sort_nodes_impl"],
      params=["topology"],
      vars={"topology": "(List Int) × (List Int)", "old_ids": "List Int", "old_pids": "List Int", "id_map": "List Int",
            "new_pids": "List Int", "new_id": "Int", "first_root": "Int", "s": "List (Int × Int)", "old_id": "Int", "new_pid": "Int",
@@ -1353,6 +1530,40 @@ spec(lean="get_paths", module="AlgoBranches", file=_TREE, cls="Tree", func="get_
      params=["ids", "pids"], vars={"ids": "List Int", "pids": "List Int", "path_dic": "Dict Int (List Int)", "paths": "List (List Int)", "idx": "List Int"},
      ret="List (List Int)", fuel=True, closures={"assign_path": "assign_path", "collect_path": "collect_path"}, self_topology=("v.ids", "v.pids"),
      subst={"self.Path(self, idx)": ("v.idx", "List Int")})
+
+
+# --- node handles (`Tree.Node` / `Node`): a node is the row index it dereferences, its tree is the column variables
+_ATT = {"self.attach": {"id": "ids", "pid": "pids"}}
+spec(lean="node_parent", module="AlgoNode", file=_TREE, cls="Tree.Node", func="parent", node_method="parent",
+     params=["pids", "self"], vars={"pids": "List Int", "self": "Node@self.attach"}, ret="Option Node@self.attach",
+     tree_cols={"self.attach": {"pid": "pids"}})
+spec(lean="node_children", module="AlgoNode", file=_TREE, cls="Tree.Node", func="children", node_method="children",
+     params=["ids", "pids", "self"], vars={"ids": "List Int", "pids": "List Int", "self": "Node@self.attach", "children": "List Int", "idx": "Int"},
+     ret="List Node@self.attach", tree_cols=_ATT)
+spec(lean="node_is_root", module="AlgoNode", file=_TREE, cls="Tree.Node", func="is_root", node_method="is_root",
+     params=["pids", "self"], vars={"pids": "List Int", "self": "Node@self.attach"}, ret="Bool", tree_cols={"self.attach": {"pid": "pids"}})
+spec(lean="node_is_furcation", module="AlgoNode", file="swcgeom/core/node.py", cls="Node", func="is_furcation", node_method="is_furcation",
+     params=["ids", "pids", "self"], vars={"ids": "List Int", "pids": "List Int", "self": "Node@self.attach"}, ret="Bool", tree_cols=_ATT)
+spec(lean="node_is_tip", module="AlgoNode", file="swcgeom/core/node.py", cls="Node", func="is_tip", node_method="is_tip",
+     params=["ids", "pids", "self"], vars={"ids": "List Int", "pids": "List Int", "self": "Node@self.attach"}, ret="Bool", tree_cols=_ATT)
+
+_TU = "swcgeom/core/tree_utils.py"
+_TCOLS = {"tree": {"id": "ids", "pid": "pids", "type": "types"}}
+spec(lean="sort_tree_", module="AlgoRedirect", file=_TU, func="_sort_tree", tree_callee="_sort_tree",
+     params=["ids", "pids", "types"],
+     vars={"ids": "List Int", "pids": "List Int", "types": "List Int", "new_ids": "List Int", "new_pids": "List Int", "id_map": "List Int"},
+     ret="Unit", out=["ids", "pids", "types"], fuel=True, tree_cols=_TCOLS, subst={"tree": ("()", "Unit")},
+     stmt_subst={"tree.ndata = {k: tree.ndata[k][id_map] for k in tree.ndata}": "ids = ids[id_map]\npids = pids[id_map]\ntypes = types[id_map]",
+                 "tree.ndata.update(id=new_ids, pid=new_pids)": "ids = new_ids\npids = new_pids"},
+     doc="`swcgeom/core/tree_utils.py::_sort_tree` (the tree is its columns `ids`, `pids`, `types`: every column is gathered by `id_map`, "
+         "then the two topology columns are replaced)")
+spec(lean="redirect_tree", module="AlgoRedirect", file=_TU, func="redirect_tree",
+     params=["ids", "pids", "types", "new_root", "sort"],
+     vars={"ids": "List Int", "pids": "List Int", "types": "List Int", "new_root": "Int", "sort": "Bool",
+           "path": "List Node@tree", "p": "Option Node@tree", "n": "Node@tree"},
+     ret="Unit", out=["ids", "pids", "types"], fuel=True, tree_cols=_TCOLS, subst={"tree": ("()", "Unit")},
+     skip_stmts=["tree = tree.copy()"],
+     doc="`swcgeom/core/tree_utils.py::redirect_tree` on the columns `ids`, `pids`, `types` of the copied tree (node handles are row indices)")
 
 
 def regenerate(modules=None):
